@@ -922,8 +922,50 @@ func ruleCacheFromDisk(c *Ctx, ls *loaderSSA) {
 		for p := range unbound {
 			ps = append(ps, p)
 		}
+		// scalars that reach the entry through the state of a callee (a parser option set from an argument) are not
+		// on a return path: take them from the call-insensitive slice
+		for w := range backSlice(v) {
+			if p, ok := w.(*ssa.Parameter); ok {
+				if bt, isBasic := p.Type().Underlying().(*types.Basic); isBasic && bt.Info()&(types.IsInteger|types.IsBoolean) != 0 {
+					if _, have := unbound[p]; !have {
+						ps = append(ps, p)
+					}
+				}
+			}
+		}
 		sort.Slice(ps, func(i, j int) bool { return ps[i].Pos() < ps[j].Pos() })
 		for _, p := range ps {
+			// a scalar handed down by the caller: it must not be read off another file's syntax tree (the default year
+			// of the INCLUDING file threaded into the parse of the included one: the entry is keyed by the path alone,
+			// so the first includer's year is served to every later one - C11-m32)
+			if bt, isBasic := p.Type().Underlying().(*types.Basic); isBasic && !seenP[p] && bt.Info()&(types.IsInteger|types.IsBoolean) != 0 && depth < 2 {
+				seenP[p] = true
+				idx := -1
+				for i, q := range p.Parent().Params {
+					if q == p {
+						idx = i
+					}
+				}
+				for _, site := range cg.callersOf(p.Parent()) {
+					if idx < 0 || idx >= len(site.Common().Args) {
+						continue
+					}
+					asl, _ := backSlicePrecise(site.Common().Args[idx])
+					for w := range asl {
+						var bt2 types.Type
+						switch x := w.(type) {
+						case *ssa.FieldAddr:
+							bt2 = x.X.Type().Underlying().(*types.Pointer).Elem()
+						case *ssa.Field:
+							bt2 = x.X.Type()
+						}
+						if bt2 != nil && strings.Contains(types.TypeString(bt2, nil), "/internal/ast.") {
+							return "a value read off the syntax tree of the including file (" + funcName(site.Parent()) + ")"
+						}
+					}
+				}
+				continue
+			}
 			if seenP[p] || !carriesText(p.Type()) && !strings.Contains(types.TypeString(p.Type(), nil), "/internal/include.") {
 				continue
 			}
